@@ -7,7 +7,10 @@ import (
 	"fmt"
 	"io"
 	"math/rand/v2"
+	"runtime"
+	"strings"
 	"sync"
+	"sync/atomic"
 	"time"
 
 	"github.com/gotd/neo"
@@ -91,6 +94,43 @@ type ev struct {
 type hclock struct {
 	*neo.Time
 	tickers chan time.Duration
+	// onNow, when set, runs before a clock reading is returned: the harness uses
+	// it to let time pass between two consecutive readings made by the library.
+	onNow atomic.Pointer[func()]
+}
+
+func (h *hclock) Now() time.Time {
+	if f := h.onNow.Load(); f != nil {
+		(*f)()
+	}
+	return h.Time.Now()
+}
+
+// stepInside arms a one-shot: the first clock reading made from inside a function
+// whose name ends with fn advances the clock by d before it returns.
+func (h *hclock) stepInside(fn string, d time.Duration) *atomic.Bool {
+	fired := new(atomic.Bool)
+	hook := func() {
+		if fired.Load() {
+			return
+		}
+		pcs := make([]uintptr, 16)
+		frames := runtime.CallersFrames(pcs[:runtime.Callers(2, pcs)])
+		for {
+			fr, more := frames.Next()
+			if strings.HasSuffix(fr.Function, fn) {
+				if fired.CompareAndSwap(false, true) {
+					h.Time.Travel(d)
+				}
+				return
+			}
+			if !more {
+				return
+			}
+		}
+	}
+	h.onNow.Store(&hook)
+	return fired
 }
 
 func (h *hclock) Ticker(d time.Duration) clock.Ticker {
